@@ -199,7 +199,10 @@ def run(rep: vk.Report):
                         Mi = np.asarray(hf(x.astype(np.int64)), dtype=float)
                     except Exception:
                         Mi = None
-                if Mi is not None and np.all(np.isfinite(Mi)) and np.all(np.abs(M) < 1e9) and not np.allclose(Mi, M, rtol=1e-9, atol=1e-12):
+                # fixed-width integers wrap around: the int64 answer is held against the floating one only where an exact-integer run of
+                # the same callable shows that no intermediate comes near 2**63
+                if Mi is not None and np.all(np.isfinite(Mi)) and np.all(np.abs(M) < 1e9) and not np.allclose(Mi, M, rtol=1e-9, atol=1e-12) \
+                        and common.int64_cannot_wrap(hf, x):
                     rep.violation({"kind": "numeric", "obligation": "the compiled Hessian at a point does not depend on the array's integer / floating dtype",
                                    "witness": {"expr": repr(e)[:300], "V": names, "point": pt, "float_point": M.tolist(), "int64_point": Mi.tolist(),
                                                "path": hf.__name__}}, concrete=True)
